@@ -14,7 +14,7 @@ from simaple.simulate.reserved_names import Tag
 
 def unit(job, variant, pi, seed, length, fork_every):
     rng = random.Random(f"C10:{seed}:{job}:{variant}:{pi}")
-    cmds = random_plan(rng, job, variant, length)
+    cmds = random_plan(rng, job, variant, length) if pi % 2 == 0 else simlib.rotation_plan(rng, job, variant, max(3, length // 8))
     eng = simlib.make_engine(job, variant)
     out = {"states": 0, "forks": 0, "valid_listed": 0, "failing": [], "foreign_rejects": 0, "skills": set(),
            "sample": None, "keydown_running_states": 0}
@@ -31,7 +31,7 @@ def unit(job, variant, pi, seed, length, fork_every):
         views, err = complib.eval_views(eng)
         out["states"] += 1
         if err is not None:
-            fail(err["kind"], **err)
+            fail(err["kind"], view=err["view"], error=err["error"])
             continue
         for v in views["validity"]:
             if v.time_left < 0:
